@@ -18,6 +18,7 @@ from decimal import Decimal
 
 from opv.core import Result
 from opv.gen_pcode import Gen, shape_hash
+from opv.rigs.interrupt_hooks import install, HITS, QUIET
 
 ID = "C04"
 LEVEL = "exploration"
@@ -50,70 +51,6 @@ REQUIRED = {"eval_events": 2000, "cond_crosschecks": 1500, "activations": 300, "
 
 K_LIVE = 8
 LO_HI = [(0.0, 6.0), (2.0, 4.0), (0.0, 4.0), (2.0, 6.0)]
-
-# ----------------------------------------------------------------------------------------------------------------
-# instrumentation
-_installed = False
-HITS = {"eval": 0, "reg": 0, "unreg": 0}
-
-
-def _flag(name):
-    priv = "_opv_" + name
-
-    def g(self):
-        return self.__dict__.get(priv, False)
-
-    def s(self, v):
-        from opv.rigs import engine_rig as R
-        d = self.__dict__
-        old = d.get(priv, False)
-        d[priv] = v
-        if old != v:
-            R.TRACE.append((R.TICK[0], name, self.id, type(self).__name__, old, v, id(self)))
-    return property(g, s)
-
-
-def install():
-    global _installed
-    if _installed:
-        return
-    _installed = True
-    from opv.rigs import engine_rig as R
-    import openpectus.lang.model.ast as p
-    import openpectus.lang.exec.pinterpreter as PI
-    R.install_node_hooks()
-    p.Node._cancelled = _flag("_cancelled")
-    p.Node._forced = _flag("_forced")
-
-    orig_eval = PI.PInterpreter._evaluate_condition
-
-    def _evaluate_condition(self, node):
-        HITS["eval"] += 1
-        try:
-            r = orig_eval(self, node)
-        except BaseException as ex:
-            R.TRACE.append((R.TICK[0], "eval", node.id, type(node).__name__, None, f"EXC {type(ex).__name__}", id(node)))
-            raise
-        R.TRACE.append((R.TICK[0], "eval", node.id, type(node).__name__, None, r, id(node)))
-        return r
-    PI.PInterpreter._evaluate_condition = _evaluate_condition
-
-    orig_unreg = PI.PInterpreter._unregister_interrupt
-
-    def _unregister_interrupt(self, node, *a, **kw):
-        HITS["unreg"] += 1
-        R.TRACE.append((R.TICK[0], "unreg_call", node.id, type(node).__name__, None, None, id(node)))
-        return orig_unreg(self, node, *a, **kw)
-    PI.PInterpreter._unregister_interrupt = _unregister_interrupt
-
-    orig_reg = PI.PInterpreter._register_interrupt
-
-    def _register_interrupt(self, node, *a, **kw):
-        HITS["reg"] += 1
-        R.TRACE.append((R.TICK[0], "reg_call", node.id, type(node).__name__, None, None, id(node)))
-        return orig_reg(self, node, *a, **kw)
-    PI.PInterpreter._register_interrupt = _register_interrupt
-
 
 # ----------------------------------------------------------------------------------------------------------------
 # workload
@@ -267,7 +204,7 @@ def drive(text: str, traj: list[float], reqs: list[dict], max_ticks: int, min_ti
         ft[T] = v
         rig.tick()
         tr = R.TRACE
-        if any(tr[i][1] != "eval" for i in range(seen, len(tr))) or (rig.cmdlog and rig.cmdlog[-1][0] == rig.k):
+        if any(tr[i][1] not in QUIET for i in range(seen, len(tr))) or (rig.cmdlog and rig.cmdlog[-1][0] == rig.k):
             last_ev = rig.k
         seen = len(tr)
         if rig.errors:
@@ -422,6 +359,7 @@ def check_case(case, res: Result):
                 guard[id(n)] = g
         fn = {id(w): cond_fn(w) for w in conds}
         plain = {id(w): all(isinstance(a, (p.ProgramNode, p.BlockNode)) for a in w.parents) for w in conds}
+        repeatable = {id(w): any(isinstance(a, (p.AlarmNode, p.MacroNode)) for a in w.parents) for w in conds}
 
         # ---- per node state reconstructed from events
         st: dict[int, dict] = {}
@@ -446,7 +384,10 @@ def check_case(case, res: Result):
             if mac is not None and mac_max.get(mac.macro_name, 0) >= 2:
                 return "C04.concurrent_calls_share_macro_body"
             # w or a Watch/Alarm above it was reset by its enclosing Alarm/Macro scope while its handler was live
-            for x in [w] + [a for a in w.parents if isinstance(a, p.NodeWithCondition)]:
+            xs = [w] + [a for a in w.parents if isinstance(a, p.NodeWithCondition)]
+            if n is not None and isinstance(n, p.NodeWithCondition):
+                xs.append(n)
+            for x in xs:
                 if S(id(x))["stale"] and any(isinstance(a, (p.AlarmNode, p.MacroNode)) for a in x.parents):
                     return "C04.interrupt_survives_reset_of_enclosing_scope"
             return mech
@@ -461,10 +402,20 @@ def check_case(case, res: Result):
         prev = None
         nontrivial = False
         sig = []
+        ctx = None             # pyid of the node whose interrupt handler is executing, None on the main path
+        after_block_end = []   # starts below a Watch/Alarm whose enclosing block had ended: judged after the loop
+        seen_events = []
         for ev in trace:
             tick, field, nid, cls, old, new, pid = ev
+            seen_events.append(ev)
             if tick > err_tick:
                 break
+            if field == "h_enter":
+                ctx = pid
+                continue
+            if field == "h_exit":
+                ctx = None
+                continue
             n = nodes.get(pid)
             if n is None:
                 prev = ev
@@ -492,6 +443,7 @@ def check_case(case, res: Result):
             elif field == "interrupt_registered":
                 if new is True:
                     s["true_since_arm"] = False
+                    s["caused"] = False
                     s["arm_tick"] = tick
                     s["epoch"] += 1
                     s["child_starts_epoch"] = {}
@@ -502,7 +454,8 @@ def check_case(case, res: Result):
                         res.count("registration_flag_cleared_by_enclosing_reset")
             elif field == "started" and new is False and isinstance(n, p.NodeWithCondition):
                 s["gen"] += 1
-                s["child_starts"] = {}
+                if repeatable[pid]:
+                    s["child_starts"] = {}
             elif field == "_cancelled" and new is True:
                 res.count("cancel_accepted")
                 s["cancel_tick"] = tick
@@ -515,7 +468,9 @@ def check_case(case, res: Result):
                 act_events.setdefault(pid, []).append(tick)
                 if s["_forced"] and not s["true_since_arm"]:
                     res.count("forced_activations")
-                if not (s["true_since_arm"] or s["_forced"]):
+                if s["true_since_arm"] or s["_forced"]:
+                    s["caused"] = True
+                else:
                     V("C04.activated_without_true_condition", f"{nid} {cls} activated in tick {tick} without a True "
                       f"evaluation since its registration in tick {s['arm_tick']} and without force", n)
                 if s["_cancelled"]:
@@ -530,29 +485,26 @@ def check_case(case, res: Result):
                     res.count("block_end_with_registered_interrupt")
                     nontrivial = True
                     blockend_pending.append((tick, pid, inside))
-            elif field in ("started", "restarted") and new is True:
+            elif field == "started" and new is True and ctx != pid:
+                # (a start of a Watch/Alarm line by its own interrupt handler is not a start of the enclosing body)
                 par = n.parent
-                if field == "started":
-                    # ---- never below a Watch/Alarm whose enclosing block has ended
-                    for b in guard.get(pid, ()):
-                        if S(id(b))["block_ended"]:
-                            w = next(a for a in n.parents if isinstance(a, p.NodeWithCondition))
-                            V("C04.body_runs_after_block_ended", f"{nid} {cls} (below {w.id} {type(w).__name__}) "
-                              f"started in tick {tick} after block {b.id} had ended", w, n)
-                            break
-                if isinstance(par, p.NodeWithCondition) and field == "started":
+                # ---- never below a Watch/Alarm whose enclosing block has ended
+                for b in guard.get(pid, ()):
+                    if S(id(b))["block_ended"]:
+                        w = next(a for a in n.parents if isinstance(a, p.NodeWithCondition))
+                        after_block_end.append((len(seen_events), n, w, b, tick))
+                        break
+                if isinstance(par, p.NodeWithCondition):
                     w = par
                     ws = S(id(w))
                     res.count("body_child_starts")
                     nontrivial = True
-                    ws["ever_body"] = True
-                    if not ws["activated"]:
-                        V("C04.body_without_activation", f"body line {nid} of {w.id} {type(w).__name__} started in "
-                          f"tick {tick} while the node is not activated", w, n)
-                    elif not (ws["true_since_arm"] or ws["_forced"]):
+                    if ctx is None:
+                        res.count("body_child_started_on_main_path")
+                    if not ws.get("caused"):
                         V("C04.body_without_true_condition", f"body line {nid} of {w.id} {type(w).__name__} started "
-                          f"in tick {tick}; no True evaluation since registration in tick {ws['arm_tick']}, no force",
-                          w, n)
+                          f"in tick {tick}; no activation by a True evaluation or a force since its registration "
+                          f"in tick {ws['arm_tick']}", w, n)
                     if ws["_cancelled"]:
                         V("C04.body_after_cancel", f"body line {nid} of {w.id} {type(w).__name__} started in tick "
                           f"{tick} after the cancel accepted in tick {ws['cancel_tick']}", w, n)
@@ -562,7 +514,8 @@ def check_case(case, res: Result):
                         ws["child_starts"][pid] = c
                         if c > 1:
                             V("C04.watch_body_twice", f"body line {nid} of Watch {w.id} started a second time in tick "
-                              f"{tick} without a reset of the Watch", w, n)
+                              f"{tick}" + (" without a reset of the enclosing Alarm/macro scope in between"
+                                           if repeatable[id(w)] else ""), w, n)
                     else:
                         res.count("alarm_once_checks")
                         d = ws.setdefault("child_starts_epoch", {})
@@ -578,6 +531,21 @@ def check_case(case, res: Result):
                 elif field == "completed" and new is True:
                     mac_active[n.macro_name] = max(0, mac_active.get(n.macro_name, 0) - 1)
             prev = ev
+
+        # ---- a line below a Watch/Alarm started after the enclosing block had ended. In the tick of an `End block`
+        # executed by an interrupt, handlers that come later in the interpreter's (copied) interrupt list are still
+        # advanced once after they were aborted; a line waiting for its threshold can get its `started` flag in
+        # that step and is then never executed (generator dropped). Only a start that is followed by execution
+        # (any later state change of that line) is "running".
+        EXEC = ("completed", "failed", "child_index", "children_complete", "lock_acquired", "interrupt_registered",
+                "activated", "block_ended")
+        for idx, n, w, b, tick in after_block_end:
+            executed = any(e[6] == id(n) and e[1] in EXEC and e[0] <= err_tick for e in trace[idx:])
+            if executed:
+                V("C04.body_runs_after_block_ended", f"{n.id} {type(n).__name__} (below {w.id} {type(w).__name__}) "
+                  f"started in tick {tick} after block {b.id} had ended, and executed", w, n)
+            else:
+                res.count("start_flag_only_after_block_end")
 
         # ---- cancel / block-end effectiveness (non-vacuity counters): the condition became true afterwards
         for w in conds:
